@@ -5,6 +5,8 @@ ENGINES = [
 NOTES = 'All checks are runtime monitors over executions of the real headers; verdicts are "held on what was observed". See DESIGN.md.'
 NOT_YET = {}
 CHECK_TEXT = {
+    'C14': {'technique': 'runtime monitoring: differential monitor against std::unordered_map after every operation of seeded histories, 6 hash functors, under ASan+UBSan'},
+    'C17': {'technique': 'runtime monitoring: (state,value) reference-model monitor after every operation of bounded-exhaustive and random holder operation sequences, under ASan+UBSan'},
     'C15': {'technique': 'runtime monitoring: differential monitor against std::string over exhaustive small strings/pairs and random sequences, sources in exact-size guarded buffers under ASan+UBSan'},
     'C13': {'technique': 'runtime monitoring: reference-sequence monitor after every operation of bounded-exhaustive and random operation sequences, under ASan+UBSan with exact-size tracked blocks'},
     'C16': {'technique': 'runtime monitoring: element-lifetime registry (by address) + allocation registry checked during and after operation sequences on every owning type, under ASan+UBSan'},
